@@ -47,6 +47,7 @@ type Kernel struct {
 	OnSend       func(s Sent)
 	// Counters
 	KernelDrops  int
+	Peeks     int // non-consuming looks at a receive queue (recvfrom MSG_PEEK)
 	BatchRecv    int
 	SingleRecv   int
 	BatchSends   int
@@ -137,6 +138,17 @@ func (s *Sock) TryRecv(max int, batch bool) ([]verifsrvnet.Datagram, syscall.Err
 		s.k.SingleRecv++
 	}
 	return out, 0
+}
+
+// Pending is the non-consuming look at the receive queue.
+func (s *Sock) Pending() (int, syscall.Errno) {
+	s.k.mu.Lock()
+	defer s.k.mu.Unlock()
+	if s.closed {
+		return 0, syscall.EBADF
+	}
+	s.k.Peeks++
+	return len(s.q), 0
 }
 
 func (s *Sock) WaitReadable() error {
